@@ -17,7 +17,7 @@ import (
 func init() {
 	fw.Register(&fw.Prop{
 		ID: "C14",
-		Rule: "differential monitor of Relu / LeakyRelu / Sigmoid / Tanh / Softmax forward values: every input shape of rank 0..R (sizes 1..3; R = 4 in quick, 5 in thorough), Softmax for EVERY Dim 0..rank-1 and the nil config, LeakyRelu slopes {nil config, 0, 0.01, 0.5, 1, 2, -0.3}, input value classes {unique reals, exact 0 / -0 mixed in, +-700 and other large magnitudes with different fibres at opposite extremes, +-1e-300}; one activation object is reused for two different inputs. Each element is compared with the defining scalar function (Softmax: e^x / sum e^x over the fibre along Dim computed with explicit index arithmetic); shape preserved; Softmax >= 0 and every fibre sums to 1 +- 1e-12. " +
+		Rule: "differential monitor of Relu / LeakyRelu / Sigmoid / Tanh / Softmax forward values: every input shape of rank 0..R (sizes 1..3; R = 4 in quick, 5 in thorough), Softmax for EVERY Dim 0..rank-1 and the nil config, LeakyRelu slopes {nil config, 0, 0.01, 0.5, 1, 2, -0.3}, input value classes {unique reals, exact 0 / -0 mixed in, +-700 and other large magnitudes with different fibres at opposite extremes, +-1e-300, and (not for Softmax) finite values around +-1e308 whose sum overflows}; one activation object is reused for two different inputs. Each element is compared with the defining scalar function (Softmax: e^x / sum e^x over the fibre along Dim computed with explicit index arithmetic); shape preserved; Softmax >= 0 and every fibre sums to 1 +- 1e-12. " +
 			"Non-trivial: >= 2 elements; distinct = (activation, config, shape, value class). Later additions: one long dimension (127..2049) with Softmax along it or across it; configs overwritten right after construction." +
 			" Round 4: every third activation object is first fed a batch holding +-Inf / NaN (outcome ignored) before the finite batches that are decided; Forward must leave its argument's tracking state and elements unchanged.",
 		Assumptions: []string{"values compared within 1e-12 relative (+1e-300 absolute)"},
@@ -60,11 +60,31 @@ func actValues(k *fw.K, class int, shape []int, softmaxDim int) (*ref.T, string)
 		}
 		return t, "large"
 	}
+	if class == 4 { // finite values at the top of the range, several of one sign (their SUM overflows, no single one does)
+		t := ref.Zeros(shape)
+		for i := range t.Data {
+			t.Data[i] = []float64{1.2e308, math.MaxFloat64, 9e307, -9e307, -1.1e308, -math.MaxFloat64, 1e308, 3}[r.Intn(8)]
+		}
+		sign := []float64{1, -1}[r.Intn(2)]
+		for i := 0; i < len(t.Data) && i < 3; i++ {
+			t.Data[i] = sign * math.Abs(t.Data[i])
+		}
+		return t, "huge"
+	}
 	t := Shuffled(r, Unique(r, shape, 1, 2))
 	for i := range t.Data {
 		t.Data[i] *= 1e-300
 	}
 	return t, "tiny"
+}
+
+// actClasses: the value classes an activation is evaluated on (Softmax is specified up to |x| = 700 only; a slope beyond 1
+// would overflow on the "huge" class).
+func actClasses(sp actSpec) []int {
+	if sp.in.Op == "softmax" || (sp.in.Op == "leakyrelu" && math.Abs(sp.in.F) > 1) {
+		return []int{0, 1, 2, 3}
+	}
+	return []int{0, 1, 2, 3, 4}
 }
 
 type actSpec struct {
@@ -143,9 +163,10 @@ func runC14(c *fw.Ctx) {
 	}
 	for _, shape := range Shapes(0, c.Pick(5, 6), 3) {
 		for _, sp := range actSpecs(len(shape)) {
-			for class := 0; class < 4; class++ {
-				shape, sp, class := shape, sp, class
+			for ci := range actClasses(sp) {
+				shape, sp, ci := shape, sp, ci
 				c.Case(func(k *fw.K) {
+					classes := actClasses(sp)
 					obj, err := sp.mk()
 					if err != nil {
 						k.Failf("%s: constructor failed: %v", sp.name, err)
@@ -155,7 +176,7 @@ func runC14(c *fw.Ctx) {
 						if (k.Index+round)%3 == 0 { // ... and in between it saw a batch of the same shape that is not finite (a diverged step)
 							actPoison(k, obj, shape)
 						}
-						x, cname := actValues(k, (class+round)%4, shape, sp.in.Dim)
+						x, cname := actValues(k, classes[(ci+round)%len(classes)], shape, sp.in.Dim)
 						k.Case = fcase{In: sp.in, Ops: []*ref.T{x}, Tag: sp.name + "/" + cname}
 						if len(x.Data) >= 2 {
 							k.Key("%s/%s/%s", sp.name, shapeKey(shape), cname)
@@ -165,12 +186,17 @@ func runC14(c *fw.Ctx) {
 						rx := rt.MustLeaf(x, k.Rng.Intn(2) == 0)
 						var y tensor.Tensor
 						guard := argGuard(rx)
-						if p := call(func() { y, err = obj.Forward(rx) }); p != nil || err != nil || y == nil {
+						ins := []tensor.Tensor{rx} // the call spreads a slice the caller keeps
+						if p := call(func() { y, err = obj.Forward(ins...) }); p != nil || err != nil || y == nil {
 							k.Failf("%s on shape %v [%s]: panic=%v err=%v", sp.name, shape, cname, p, err)
 							return
 						}
 						if msg := guard(); msg != "" {
 							k.Failf("%s.Forward on shape %v changed its input tensor: %s", sp.name, shape, msg)
+							return
+						}
+						if len(ins) != 1 || ins[0] != rx {
+							k.Failf("%s.Forward(ins...) on shape %v overwrote the caller's argument slice", sp.name, shape)
 							return
 						}
 						if e := rt.Compare(y, want, 1e-300, 1e-12, nil, 0); e != nil {
